@@ -202,7 +202,7 @@ fn effective_data(data: &[f64], ad: Adaptor) -> Vec<f64> {
     }
 }
 
-fn collect_val<T: ParEst>(tree: &TreeTrace, data: &[f64], ad: Adaptor) -> T {
+pub fn collect_val<T: ParEst>(tree: &TreeTrace, data: &[f64], ad: Adaptor) -> T {
     let it = SimPar { items: data, tree };
     match ad {
         Adaptor::None => it.collect(),
@@ -214,7 +214,7 @@ fn collect_val<T: ParEst>(tree: &TreeTrace, data: &[f64], ad: Adaptor) -> T {
     }
 }
 
-fn collect_ref<T: ParEst>(tree: &TreeTrace, data: &[f64], ad: Adaptor) -> T {
+pub fn collect_ref<T: ParEst>(tree: &TreeTrace, data: &[f64], ad: Adaptor) -> T {
     let refs: Vec<&f64> = data.iter().collect();
     let it = SimPar { items: &refs[..], tree };
     match ad {
